@@ -711,6 +711,50 @@ def check_pair(rec, p, r, full_basis_max=216, models=True):
         rec.violation('C15:adjoint-is-not-transpose', '; '.join(bad)[:900],
                       case)
 
+    # ---- 7d: the same output-grid OBJECT with a second, different input
+    # grid of the same shape (nothing remembered from the first pair, on the
+    # grid objects or in the module, may leak into the second)
+    try:
+        idx = int(p['tag'].split(':')[-1])
+    except ValueError:
+        idx = 1
+    if gi.n_cells > 1 and idx % 3 == 0:
+        ni2 = []
+        for n_ in ni:
+            n2 = np.array(n_, dtype=float)
+            if n2.size > 2:
+                h_ = np.diff(n2)
+                n2[1:-1] += r.uniform(-0.3, 0.3, n2.size-2)*np.minimum(
+                    h_[:-1], h_[1:])
+            else:
+                n2 = n2 + r.uniform(-0.2, 0.2)*(n2[-1]-n2[0])
+            ni2.append(n2)
+        gi2 = make_grid(ni2)
+        ref2 = RefAvg([np.array(gi2.nodes_x), np.array(gi2.nodes_y),
+                       np.array(gi2.nodes_z)], no)
+        nv2 = np.array(r.standard_normal((3, *shape_o)), order='F')
+        ov0 = np.array(r.standard_normal((3, *sh_i)), order='F')
+        ov2 = ov0.copy(order='F')
+        adj(ov2, gi2, nv2, go)           # same `go` object as above
+        rec.event('adjoint_calls')
+        hmin2 = min(hmin, min(float(np.min(h)) for h in gi2.h))
+        tol2 = 1e-13 + 64*EPS*max(allnodes, float(np.abs(
+            np.concatenate(ni2)).max()))/hmin2
+        e2 = 0.0
+        for c in range(3):
+            want = ov0[c] + ref2.applyT(nv2[c])
+            sc = np.abs(ov0[c]) + ref2.applyT(np.abs(nv2[c])) + 1e-300
+            e = relerr(ov2[c], want, sc, ref2.slackT(np.abs(nv2[c])))
+            e2 = max(e2, e) if e == e and e2 == e2 else float('nan')
+        rec.event('c7_adjoint_reused_output_grid_checks')
+        rec.margin('c7_adjoint_reused_err_over_tol', e2/tol2)
+        if not (e2 <= 2*tol2):
+            ok_all = False
+            rec.violation('C15:adjoint-is-not-transpose', f'second input grid '
+                          f'of the same shape used with the SAME output-grid '
+                          f'object: adjoint deviates from oval0 + W^T n by '
+                          f'{e2:.3e} (scaled; tol {tol2:.1e})', case)
+
     # ---- 8: Model.interpolate_to_grid
     if models:
         ok_all = check_models(rec, p, r, gi, go, ref, tol, case) and ok_all
